@@ -1,6 +1,6 @@
 """C03 - data-flow fidelity of step inputs. Proof (partial): coq/Props/C03.v. Full statement: reference semantics monitors.P_C03 at
 every BEGIN of every implementation trace; tie: trace validation compares the complete inputs dict of every step with the model's."""
-from .. import common, sched_check, monitors
+from .. import common, sched_check, monitors, gen
 
 KINDS = {'inputs'}
 
@@ -42,6 +42,7 @@ def run(out, info, tier, seed):
     out.assumptions = ['slot semantics: one value per (destination attribute, source entity); a value overwritten in its slot before the consumer steps is superseded, not lost',
                        'outside the quantifier: several connections into one slot (unique_slots), persistent attributes not produced at every step (persistent_complete)']
     sched_check.sched_property(out, info, tier, seed, 'C03', KINDS, monitor, gen_opts=dict(groups=True, clean=0.75),
+                               case_gen=lambda rng, k: gen.gen_parallel_case(rng) if k % 5 == 4 else gen.gen_case(rng, groups=True, clean=0.75),
                                ncases=(130, 2000), variants=[(True, True), (False, True), (True, False), (False, False)],
                                nontrivial=nontrivial, features=features, hyp=hyp, known_match=known_match,
                                extra_obligations=[('Sched.DataP (buffer, cache, pruning lemmas)', 'Sched/DataP')])
